@@ -66,6 +66,19 @@ def run(ctx):
                                                  p_coarse=0.0, p_periodic=0.0), 'c01gap_')
     specs += force_gap(gen.gen_many(ctx.seed, n // 3, dict(CFG, p_dupnode=0.0, p_coarse=0.0, p_periodic=0.0, p_window=0.0, T=(4, 8), n_assets=(3, 5), nodes=(2, 3),
                                                            kinds={'SimpleContract': 3, 'Contract': 1, 'Transport': 3, 'Storage': 2, 'MultiCommodityContract': 3}), 'c01out_'), ctx.seed)
+    # badly scaled but legal data (tiny volumes, huge prices), and conversion factors of the order 1e-6 (kW -> GW links)
+    base = gen.gen_many(ctx.seed, n // 3, dict(CFG, p_coarse=0.0, p_periodic=0.0, kinds={'SimpleContract': 2, 'Contract': 1, 'Transport': 3, 'Storage': 2, 'MultiCommodityContract': 2}), 'c01sc_')
+    specs += util.rescaled(base[:len(base) // 2], 2.0 ** 20, 2.0 ** -10)
+    tiny = base[len(base) // 2:]
+    for sp in tiny:
+        for a in sp['assets']:
+            if a['kind'] == 'Transport':
+                a['efficiency'] = 2.0 ** -20
+                a['max_cap'] = abs(a.get('max_cap', 1.0)) * 2.0 ** 20 if a.get('max_cap', 0) > 0 else a.get('max_cap', 0)
+            if a['kind'] == 'MultiCommodityContract':
+                a['factors_commodities'] = [a['factors_commodities'][0]] + [f * 2.0 ** -21 for f in a['factors_commodities'][1:]]
+        sp['id'] += '_tiny'
+    specs += tiny
     specs = ctx.specs(specs)
     res = C.run_impl('portfolio', specs)
     exprs, owners = [], []
